@@ -171,8 +171,18 @@ def census(prog, an):
                 unfolded.append((f, call))
                 continue
             extra = len(call.args) - 1
+            # positional *args of Repository.cmd fill the %s holes: with
+            # what they can be when that is known, else a run-time value
+            fills = []
+            for a in call.args[1:]:
+                vs = None if isinstance(a, ast.Starred) else \
+                    possible_strings(f, a)
+                fills.append(vs if vs and len(vs) <= 4 else {HOLE})
+            fills += [{HOLE}] * 16
             for s in sorted(strs):
-                # positional *args of Repository.cmd fill the %s holes
-                s2 = ''.join(_fill(s, [{HOLE}] * 16)) if extra else s
-                out.append(Cmd(f, call, s2))
+                if not extra:
+                    out.append(Cmd(f, call, s))
+                    continue
+                for s2 in sorted(_fill(s, fills)):
+                    out.append(Cmd(f, call, s2))
     return out, unfolded
